@@ -7,7 +7,7 @@ const STACK: usize = 256 * 1024 * 1024;
 
 fn usage() -> ExitCode {
     eprintln!(
-        "usage: vh run <file> | vh batch <dir> [--jobs N] | vh batch-part <dir> <k> <N> | vh gen <family|all> <seed> <count> <outdir>"
+        "usage: vh run <file> | vh batch <dir> [--jobs N] | vh batch-part <dir> <k> <N> | vh gen <family|all> <seed> <count> <outdir> | vh extend <prog-file> <cut> <seed> <outdir> | vh extend --list"
     );
     ExitCode::from(2)
 }
@@ -112,6 +112,26 @@ fn main() -> ExitCode {
             let outdir = PathBuf::from(&args[4]);
             on_big_stack(move || match vh_harness::generate::generate(&family, seed, count, &outdir) {
                 Ok(()) => ExitCode::SUCCESS,
+                Err(e) => {
+                    eprintln!("vh: {e}");
+                    ExitCode::FAILURE
+                }
+            })
+        }
+        Some("extend") if args.len() == 2 && args[1] == "--list" => {
+            for name in vh_harness::generate::extend::STRATEGIES {
+                println!("{name}");
+            }
+            ExitCode::SUCCESS
+        }
+        Some("extend") if args.len() == 5 => {
+            let (Ok(cut), Ok(seed)) = (args[2].parse::<usize>(), args[3].parse::<u64>()) else {
+                return usage();
+            };
+            let prog = PathBuf::from(&args[1]);
+            let outdir = PathBuf::from(&args[4]);
+            on_big_stack(move || match vh_harness::generate::extend::extend(&prog, cut, seed, &outdir) {
+                Ok(_) => ExitCode::SUCCESS,
                 Err(e) => {
                     eprintln!("vh: {e}");
                     ExitCode::FAILURE
